@@ -2,6 +2,75 @@ package main
 
 // locks.go: interference model for lock-protected state (used by lock-discipline checks).
 
+import "strings"
+
 func (fv *FuncVC) havocGuarded(mu *Val, id string) {
 	// placeholder: filled in with guarded_by declarations
+}
+
+// ReacquireRule: "reacquire <lock> : <designators> ; <invariant>" in a function's contract.
+// The state named by the designators is protected by the lock. The first acquisition of the lock in the function
+// is where the function's view of that state begins; every LATER acquisition (after the function has released the
+// lock: an RLock probe followed by a Lock, a lock dropped around a slow call) sees whatever other threads left
+// there - the designated state is forgotten and only the invariant is known again. A decision taken under the
+// earlier critical section and not re-validated under the new one therefore cannot carry a proof.
+type ReacquireRule struct {
+	LockSrc string
+	Mods    []string
+	Inv     *Clause
+	File    string
+	Line    int
+}
+
+func (fv *FuncVC) reacquire(id string) {
+	if fv.con == nil || len(fv.con.Reacquire) == 0 {
+		return
+	}
+	for _, rule := range fv.con.Reacquire {
+		lx, err := parseSpecExpr(rule.LockSrc)
+		if err != nil {
+			fv.unsupp("spec error at %s:%d: bad lock expression %q", rule.File, rule.Line, rule.LockSrc)
+			continue
+		}
+		env := &Env{fv: fv, st: fv.cur, old: fv.entry, vars: map[string]*Val{}, locals: true, at: fv.curBlock, allocOld: "alloc@0"}
+		for k, v := range fv.params {
+			if fv.findLocal(k, fv.curBlock) == nil {
+				env.vars[k] = v
+			}
+		}
+		if env.addrOf(lx) != id {
+			continue
+		}
+		if fv.acquired == nil {
+			fv.acquired = map[string]int{}
+		}
+		fv.acquired[id]++
+		if fv.acquired[id] < 2 {
+			continue
+		}
+		tmp := &Contract{Func: fv.key, Modifies: rule.Mods, HasMod: true, File: rule.File, Line: rule.Line}
+		for _, t := range fv.resolveModifies(tmp, env) {
+			if t.heap == "*" {
+				continue
+			}
+			h := fv.heapGet(t.heap, t.sort)
+			if t.whole || !strings.HasPrefix(t.sort, "(Array Int ") {
+				fv.heapHavoc(t.heap)
+				continue
+			}
+			cur := h
+			for _, loc := range t.locs {
+				fr := fv.fresh("rq."+t.heap, elemSortOfArray(t.sort))
+				cur = "(store " + cur + " " + loc + " " + fr + ")"
+			}
+			fv.heapSet(t.heap, t.sort, cur)
+		}
+		if rule.Inv != nil {
+			env2 := &Env{fv: fv, st: fv.cur, old: fv.entry, vars: env.vars, locals: true, at: fv.curBlock, allocOld: "alloc@0"}
+			t := env2.tr(rule.Inv.Expr)
+			fv.reportSpecErrs(env2, rule.Inv)
+			fv.assume(t.T)
+		}
+		fv.note("lock re-acquired: guarded state forgotten (reacquire rule)")
+	}
 }
